@@ -9,8 +9,8 @@ import (
 	"net"
 	"os"
 	"os/exec"
-	"runtime"
 	"path/filepath"
+	"runtime"
 	"runtime/debug"
 	"runtime/pprof"
 	"strconv"
@@ -283,6 +283,8 @@ func c15setup(tier string, seed uint64) int {
 		for _, v := range []struct{ l, how string }{{"plain", "config-set-port-0"}, {"plain", "SetPort(0)"}, {"both", "config-set-port-0"}, {"both", "SetPort(0)"}, {"both", "SetTLSPort(0)"}, {"tls", "SetTLSPort(0)"}} {
 			c15.gated = append(c15.gated, c15gated{Kind: "stop-after-port-switched-off", Listeners: v.l, Plain: v.how, Rep: rep})
 		}
+		// two connections from one client address and port, one to each listener
+		c15.gated = append(c15.gated, c15gated{Kind: "same-client-port-on-both-listeners", Listeners: "both", Rep: rep})
 		// Start (or Restart) immediately followed by Stop, 40 times, on ONE processor: whatever a lifecycle call
 		// starts has not had a chance to run when the next call begins
 		for _, l := range []string{"plain", "both"} {
@@ -674,6 +676,70 @@ func c15runGated(idx int, g c15gated) run.Result {
 		if why := s.probeServing(); why != "" {
 			res.Violate(sig+":not-serving", "after Restart returns without error the server accepts and serves on every enabled port", why, desc)
 		}
+	case "same-client-port-on-both-listeners":
+		// One client address:port may hold a connection to EACH listener at the same time (the 4-tuples differ).
+		// They are two connections: the registry holds two entries, the end of one leaves the other registered,
+		// and Stop closes the one that is left.
+		lp := freePort()
+		dialFrom := func(port int) (net.Conn, error) {
+			d := net.Dialer{Timeout: 5 * time.Second, LocalAddr: &net.TCPAddr{IP: net.IPv4(127, 0, 0, 1), Port: lp},
+				Control: func(network, address string, rc syscall.RawConn) error {
+					var e error
+					rc.Control(func(fd uintptr) { e = syscall.SetsockoptInt(int(fd), syscall.SOL_SOCKET, syscall.SO_REUSEADDR, 1) })
+					return e
+				}}
+			return d.Dial("tcp", fmt.Sprintf("127.0.0.1:%d", port))
+		}
+		ra, err := dialFrom(s.plain)
+		if err != nil {
+			res.Inconclusive = "client could not connect from the chosen local port: " + err.Error()
+			return res
+		}
+		a := &tcpClient{c: ra}
+		defer ra.Close()
+		rb, err := dialFrom(s.tls)
+		if err != nil {
+			res.Inconclusive = "the second connection from the same local port could not be made: " + err.Error()
+			return res
+		}
+		tb := tls.Client(rb, s.p.ClientConfig(pki.CredRight))
+		b := &tcpClient{c: tb}
+		defer tb.Close()
+		if _, err := a.do("PING"); err != nil {
+			res.Inconclusive = "PING on the plain connection failed"
+			return res
+		}
+		if v, err := b.do("PING"); err != nil || !resp.Equal(v, resp.Status("PONG")) {
+			res.Violate(sig+":second-connection-not-served", "after Start returns the server accepts and serves connections on every enabled port", fmt.Sprintf("a TLS connection from the local port that also holds a plain connection: PING answered %v %v", v, err), desc)
+			return res
+		}
+		if n := len(s.srv.Conns()); n != 2 {
+			res.Violate(sig+":registry-mismatch", "while running, the registry contains exactly the connections currently being served", fmt.Sprintf("2 client sockets (one per listener, same client address and port %d) are open and answered, registry has %d entries", lp, n), desc)
+			return res
+		}
+		// the plain one goes away by reset; its goroutine deregisters it (schedule point, not time)
+		before := ctl.Count("conn.deregistered")
+		rstClose(a)
+		s.closed++
+		if !ctl.WaitCount("conn.deregistered", before+1, watchdog) {
+			res.Inconclusive = "the reset connection was not deregistered within the watchdog"
+			return res
+		}
+		if v, err := b.do("PING"); err != nil || !resp.Equal(v, resp.Status("PONG")) {
+			res.Violate(sig+":survivor-not-served", "the server serves connections until Stop is called", fmt.Sprintf("after the plain connection from the same local port ended, PING on the TLS one: %v %v", v, err), desc)
+			return res
+		}
+		if n := len(s.srv.Conns()); n != 1 {
+			res.Violate(sig+":registry-mismatch-after-one-ended", "while running, the registry contains exactly the connections currently being served", fmt.Sprintf("1 client socket is open and answered, registry has %d entries", n), desc)
+			return res
+		}
+		stopErr := s.srv.Stop()
+		if !clientClosed(b) {
+			res.Violate(sig+":client-open", "after Stop returns every client connection has been closed", "the connection that was left saw neither EOF nor reset within 3 s after Stop returned", desc)
+			return res
+		}
+		s.closed++
+		afterStopReturned(&res, s, sig, stopErr, desc)
 	case "stop-vs-handshaking-client":
 		// a raw TCP connection to the TLS port that sends nothing: the server has accepted it and waits for the
 		// ClientHello (structural witness: a goroutine of the server is inside tlsReceive)
@@ -1733,7 +1799,7 @@ func init() {
 	run.Register(&run.Prop{
 		ID: "C15", Level: "fault_enumeration",
 		Rule: func(tier string) string {
-			return "two parts. (gated, hook H2) a controller parks goroutines at named schedule points and releases them in a chosen order: Restart vs the exiting accept loops for {plain, TLS, both} listeners with each old loop's exit (and its deferred close) placed before Stop returns / after the new listeners are open / concurrently (3, 3 and 9 placements); Stop vs a connection accepted while Stop is between its two phases; Stop vs connection goroutines parked at their exit point; Stop in the middle of a connect storm (16 dialing goroutines, repeated; a connection that answers after Stop returned, or that is still registered at a fixed point, is a violation); Stop while a client whose handler is still running has already gone away by reset or FIN (the reset is known to have arrived when the kernel no longer lists the server-side socket); Stop while 24..64 registered clients hang up by FIN and reset at the same moment (free-running, repeated). What Stop promises is probed whenever Stop returns, with or without an error. Stop while a client of the TLS port has connected but not sent its ClientHello (it must see EOF or a reset within 3 s). Restart while an accepted connection's goroutine is held at its first step (schedule point conn.accepted), before it has registered: the connection must not be served afterwards. A Start that fails in its TLS half (the TLS port is held by another socket) must leave the plain port bindable, and after Stop a new Start must work. A transient Accept failure: every free descriptor of the process is taken, one client per port is left waiting in the listen queue so that Accept fails with EMFILE, the descriptors are released, and every port must serve again. A hard Accept failure: the scenario (Start, six service requests per port, Stop and its postconditions, Start, six requests, Restart, six requests) runs in a victim process under strace fault injection, every second accept4 call failing with one of ENOBUFS, EPROTO, EHOSTUNREACH, EMFILE (thorough: also ENOMEM, EPERM, ENETDOWN, ENFILE, EOPNOTSUPP) - errors the runtime does not mark temporary as well as ones it does; the injections are counted from strace's log. A port switched off in the configuration of the running server (a client's CONFIG SET port 0, the application's SetPort(0) or SetTLSPort(0)) followed by Stop, in a victim process: Stop must return (10 s watchdog; the verdict is structural - Stop parked waiting for the accept loops while a loop is parked in Accept on a listener nobody closed), the ports the server HELD must be free, and with the port switched on again a new Start serves. Start or Restart immediately followed by Stop, 40 times in a victim process that runs on ONE processor (what a call has started has not run yet when the next begins): when Stop returns no accept-loop goroutine may exist. Postconditions probed after everything is released: dial+PING on every enabled port (twice), bind probe, client-side EOF, Conns() empty, goroutine profile. (histories) ALL call sequences over {Start, Stop, Restart} up to length 4 (quick) / 6 (thorough) x {plain, plain+TLS} with 0..3 clients connecting, idling or disconnecting between calls (and, on the TLS port, clients that a common-name rule refuses after their handshake); after each call the promise of that call is probed, and at quiescent instants len(Conns()) must equal the number of client sockets held open (waiting on the conn.deregistered point, not on time). Start on a running server is tagged start-while-running. A goroutine leak is only reported when the count stays above baseline for the whole grace window; a goroutine parked at its own schedule point after Stop returned is a strict violation. Children are race-detector builds. distinct = scenario/sequence"
+			return "two parts. (gated, hook H2) a controller parks goroutines at named schedule points and releases them in a chosen order: Restart vs the exiting accept loops for {plain, TLS, both} listeners with each old loop's exit (and its deferred close) placed before Stop returns / after the new listeners are open / concurrently (3, 3 and 9 placements); Stop vs a connection accepted while Stop is between its two phases; Stop vs connection goroutines parked at their exit point; Stop in the middle of a connect storm (16 dialing goroutines, repeated; a connection that answers after Stop returned, or that is still registered at a fixed point, is a violation); Stop while a client whose handler is still running has already gone away by reset or FIN (the reset is known to have arrived when the kernel no longer lists the server-side socket); Stop while 24..64 registered clients hang up by FIN and reset at the same moment (free-running, repeated). What Stop promises is probed whenever Stop returns, with or without an error. Stop while a client of the TLS port has connected but not sent its ClientHello (it must see EOF or a reset within 3 s). Restart while an accepted connection's goroutine is held at its first step (schedule point conn.accepted), before it has registered: the connection must not be served afterwards. A Start that fails in its TLS half (the TLS port is held by another socket) must leave the plain port bindable, and after Stop a new Start must work. A transient Accept failure: every free descriptor of the process is taken, one client per port is left waiting in the listen queue so that Accept fails with EMFILE, the descriptors are released, and every port must serve again. A hard Accept failure: the scenario (Start, six service requests per port, Stop and its postconditions, Start, six requests, Restart, six requests) runs in a victim process under strace fault injection, every second accept4 call failing with one of ENOBUFS, EPROTO, EHOSTUNREACH, EMFILE (thorough: also ENOMEM, EPERM, ENETDOWN, ENFILE, EOPNOTSUPP) - errors the runtime does not mark temporary as well as ones it does; the injections are counted from strace's log. A port switched off in the configuration of the running server (a client's CONFIG SET port 0, the application's SetPort(0) or SetTLSPort(0)) followed by Stop, in a victim process: Stop must return (10 s watchdog; the verdict is structural - Stop parked waiting for the accept loops while a loop is parked in Accept on a listener nobody closed), the ports the server HELD must be free, and with the port switched on again a new Start serves. Two connections from ONE client address and port, one to each listener: two registry entries, the end of one leaves the other registered and served, Stop closes it. Start or Restart immediately followed by Stop, 40 times in a victim process that runs on ONE processor (what a call has started has not run yet when the next begins): when Stop returns no accept-loop goroutine may exist. Postconditions probed after everything is released: dial+PING on every enabled port (twice), bind probe, client-side EOF, Conns() empty, goroutine profile. (histories) ALL call sequences over {Start, Stop, Restart} up to length 4 (quick) / 6 (thorough) x {plain, plain+TLS} with 0..3 clients connecting, idling or disconnecting between calls (and, on the TLS port, clients that a common-name rule refuses after their handshake); after each call the promise of that call is probed, and at quiescent instants len(Conns()) must equal the number of client sockets held open (waiting on the conn.deregistered point, not on time). Start on a running server is tagged start-while-running. A goroutine leak is only reported when the count stays above baseline for the whole grace window; a goroutine parked at its own schedule point after Stop returned is a strict violation. Children are race-detector builds. distinct = scenario/sequence"
 		},
 		Exhaustive:    func(string) bool { return true },
 		Assumptions:   []string{"TLS listeners are configured through the file-based path with a PKI minted at run time", "wall-clock watchdogs only produce 'inconclusive'"},
